@@ -69,6 +69,8 @@ class PlanConfig:
         self.iter_num = (0, 3, 6)[tape.weighted((2, 3, 2), "p_iter")]
         self.hang_num = (0, 1, 3)[tape.weighted((2, 2, 1), "p_hang")] if allow_hang else 0
         self.slow_close_num = (0, 3)[tape.draw(2, "p_slowclose")]
+        self.allow_async = allow_async
+        self.slowc_num = (0, 2, 4)[tape.weighted((2, 2, 1), "p_slowc")] if allow_async else 0
 
 
 class Planner:
@@ -104,6 +106,8 @@ class Planner:
         fp = FieldPlan()
         if tp.draw(8, "f_async") < cfg.async_num:
             fp.delivery = ("future", "coro1", "coro2", "coro0", "future")[tp.draw(5, "f_kind")]
+            if tp.draw(8, "f_slowc") < cfg.slowc_num:
+                fp.delivery = "slowc"  # catches cancellation, awaits a cleanup external, re-raises
             self.n_async += 1
         if tp.draw(24, "f_fault") < cfg.fault_num:
             inner = t.of_type if is_non_null_type(t) else t
@@ -155,6 +159,8 @@ class Planner:
         lp = ListPlan()
         if tp.draw(8, "l_iter") < cfg.iter_num:
             lp.kind = ("gen", "aiter", "agen", "tuple", "aiter_noclose", "aiter")[tp.draw(6, "l_kind")]
+            if not cfg.allow_async and lp.kind not in ("gen", "tuple"):
+                lp.kind = "gen"
         if lp.kind in ("aiter", "agen", "aiter_noclose"):
             self.n_async += 1
             lp.anext = tuple(tp.draw(8, "l_anext") < max(cfg.async_num, 2) for _ in range(n + 1))
